@@ -175,3 +175,30 @@ Proof. vm_compute. repeat split; reflexivity. Qed.
 (* the announcers the model searches for are the ones of the source (regenerated on every run) *)
 Theorem C01_announcers_are_the_sources : ExtractDefault.VARIANTS = src_defaults_to_variants.
 Proof. vm_compute. reflexivity. Qed.
+
+(* ---- the whole ReST pipeline for defaults carried in the prose: set_default_doc -> ReST emitter -> scanner -> parser ->
+   extract_default.  For EVERY clean description, EVERY non-empty list of distinctly named parameters, each with a description
+   d and a default text t in the stated domain (no colon, no blank at the outer ends, the word "default" nowhere, t kept whole by
+   the scan): rendering and parsing back returns the same names in the same order, and for each of them the description d (plus
+   the emitter's full stop) and exactly the default text t. *)
+From CDD Require RestDefaultProofs.
+Theorem C01_rest_default_roundtrip : forall (doc : str) (items : list RestDefaultProofs.item),
+  clean doc = true -> forallb RestDefaultProofs.item_ok items = true -> NoDup (map fst items) -> items <> [] ->
+  let back := parse_rest (emit_rest true doc (map RestDefaultProofs.item_param items) None) in
+  p_doc back = doc /\ p_ret back = None
+  /\ map RestDefaultProofs.read_back (p_params back)
+     = map (fun it => (fst it, (ExtractDefaultProofs.dotted (fst (snd it)), Some (ExtractDefaultProofs.strip3 (snd (snd it)))))) items.
+Proof. exact RestDefaultProofs.rest_default_roundtrip. Qed.
+Print Assumptions C01_rest_default_roundtrip.
+
+Example C01_rest_default_example :
+  let items := [(s2l "size"%string, (s2l "Größe des Puffers"%string, s2l "-16"%string)); (s2l "ratio"%string, (s2l "load factor,"%string, s2l "12.5"%string))] in
+  forallb RestDefaultProofs.item_ok items = true
+  /\ emit_rest true (s2l "Resize it"%string) (map RestDefaultProofs.item_param items) None
+     = s2l "Resize it
+
+:param size: Größe des Puffers. Defaults to -16
+
+:param ratio: load factor, Defaults to 12.5
+"%string.
+Proof. vm_compute. split; reflexivity. Qed.
